@@ -7,6 +7,7 @@
 #include "goldilocks_base_field.hpp"
 #include "poseidon_goldilocks.hpp"
 #include "merklehash_goldilocks.hpp"
+#include <omp.h>
 
 using pbt::Case; using pbt::Ctx;
 typedef Goldilocks::Element E;
@@ -214,6 +215,11 @@ static bool body_merkle(const Case &c, Ctx &ctx)
     uint64_t nel = MerklehashGoldilocks::getTreeNumElements(rows);
     if (nel != refp::tree_elems(rows)) return ctx.fail("getTreeNumElements(" + std::to_string(rows) + ") = " + std::to_string(nel));
     Block tree(nel, 16);
+    // payload[7] & 1: the builder is called from inside an active parallel region (nested parallelism is off by default, so the
+    // runtime delivers a team of ONE although nThreads were requested -- a legal outcome for any OpenMP program)
+    const bool nested = c.v.size() > 7 && (c.v[7] & 1);
+    if (nested) ctx.nt("mt:called-inside-parallel-region(fewer-threads-delivered)");
+    auto build = [&]() {
     switch (variant) {
     case V_SEQ: PoseidonGoldilocks::merkletree_seq(tree.p, in.p, cols, rows, nth, dim); break;
     case V_AVX: PoseidonGoldilocks::merkletree_avx(tree.p, in.p, cols, rows, nth, dim); break;
@@ -225,6 +231,12 @@ static bool body_merkle(const Case &c, Ctx &ctx)
     case V_AVX512: PoseidonGoldilocks::merkletree_avx512(tree.p, in.p, cols, rows, nth, dim); break;
     case V_BAVX512: PoseidonGoldilocks::merkletree_batch_avx512(tree.p, in.p, cols, rows, batch, nth, dim); break;
 #endif
+    }
+    };
+    if (!nested) build();
+    else {
+#pragma omp parallel num_threads(2)
+        { if (omp_get_thread_num() == 0) build(); }
     }
     // reference
     std::vector<uint64_t> leaves(rows * 4);
@@ -252,7 +264,7 @@ static bool body_merkle(const Case &c, Ctx &ctx)
 }
 static std::string desc_merkle(const Case &c)
 {
-    return c.prop + " " + VN[c.v[0] % NVAR] + " rows=2^" + std::to_string(c.v[1]) + " cols=" + std::to_string(c.v[2]) + " dim=" + std::to_string(c.v[3]) + " batch=" + std::to_string(c.v[4]) + " nThreads=" + std::to_string(c.v[5]) + " seed=" + hx(c.v[6]);
+    return c.prop + " " + VN[c.v[0] % NVAR] + " rows=2^" + std::to_string(c.v[1]) + " cols=" + std::to_string(c.v[2]) + " dim=" + std::to_string(c.v[3]) + " batch=" + std::to_string(c.v[4]) + " nThreads=" + std::to_string(c.v[5]) + " seed=" + hx(c.v[6]) + (c.v.size() > 7 && (c.v[7] & 1) ? " [called inside a parallel region]" : "");
 }
 
 static int g_level = 0;
@@ -273,7 +285,7 @@ static std::vector<std::vector<uint64_t>> &merkle_space()
                     std::vector<uint64_t> batches{1};
                     if (is_batch(v)) { batches = {1, 2, 3, 4, 5, 8, cols > 1 ? cols - 1 : 1, cols ? cols : 1, cols + 1, cols + 3, 1ull << 20}; if (!full) batches = {1, 3, 4, cols > 1 ? cols - 1 : 1, cols + 1, 1ull << 20}; }
                     std::sort(batches.begin(), batches.end()); batches.erase(std::unique(batches.begin(), batches.end()), batches.end());
-                    for (uint64_t b : batches) { ctr++; sp.push_back({(uint64_t)v, (uint64_t)lr, cols, dim, b, (uint64_t)ths[ctr % 6], pbt::mix(ctr, 5)}); }
+                    for (uint64_t b : batches) { ctr++; sp.push_back({(uint64_t)v, (uint64_t)lr, cols, dim, b, (uint64_t)ths[ctr % 6], pbt::mix(ctr, 5), (uint64_t)(ctr % 7 == 3)}); }
                 }
     return sp;
 }
@@ -311,7 +323,7 @@ int main(int argc, char **argv)
                          uint64_t dim = (uint64_t)*g::irange(1, 3);
                          uint64_t batch = *rc::gen::weightedOneOf<uint64_t>({{5, g::range(1, cols + 3)}, {1, rc::gen::just<uint64_t>(1ull << 20)}, {1, g::range(1, 1ull << 40)}});
                          int nth = *rc::gen::elementOf(std::vector<int>{0, 1, 2, 3, 5, 16, 33});
-                         return std::vector<uint64_t>{(uint64_t)v, (uint64_t)lr, cols, dim, batch, (uint64_t)nth, *g::uni64()}; }); }, body_merkle, 1, true, desc_merkle, 100});
+                         return std::vector<uint64_t>{(uint64_t)v, (uint64_t)lr, cols, dim, batch, (uint64_t)nth, *g::uni64(), (uint64_t)*rc::gen::weightedElement<int>({{4, 0}, {1, 1}})}; }); }, body_merkle, 1, true, desc_merkle, 100});
     return pbt::harness_main(argc, argv, "h_poseidon", props);
 }
 #endif // PBT_NO_MAIN
